@@ -225,8 +225,66 @@ def injectivity_and_resolution(_):
                             out["violations"].append({"key": "C20:relative-dependency-resolved-against-wrong-directory", "msg": "//%s:%s takes its deps from a list shared through an included file; loaded deps %s, expected %s (load order %s)" % (pk, nm, got, want, order), "witness": {"order": order}})
             except Exception as ex:
                 out["violations"].append({"key": "C20:relative-dependency-resolved-against-wrong-directory", "msg": "sound project with a shared deps list failed to load (%s): %s" % (order, getattr(ex, "printable_message", lambda: repr(ex))()), "witness": {"order": order}})
+    # a package whose COND file (or whole directory) is a symbolic link to another package's: ':name' still
+    # means "in the directory of the COND file that lists it", i.e. the package it was reached through
+    with common.Scratch("cv20s") as sc:
+        root = os.path.join(sc.root, "p")
+        os.makedirs(os.path.join(root, "a"))
+        os.makedirs(os.path.join(root, "b"))
+        open(os.path.join(root, "cond_config.toml"), "w").write("disable_git = true\n")
+        open(os.path.join(root, "a", "COND"), "w").write("run_command(name='prep', run='true')\nrun_command(name='main', run='true', deps=[':prep'])\n")
+        os.symlink("../a/COND", os.path.join(root, "b", "COND"))
+        os.symlink("a", os.path.join(root, "c"))
+        for pk in ("a", "b", "c"):
+            idx = TaskIndex(pathlib.Path(root))
+            try:
+                idx.load_transitive_closure(TaskIdentifier.from_str("//%s:main" % pk))
+                got = [str(x) for x in idx.get_task(TaskIdentifier.from_str("//%s:main" % pk)).deps]
+            except Exception as ex:
+                got = "error: %r" % ex
+            out["reach"]["c20_relative_dep_resolutions"] = out["reach"].get("c20_relative_dep_resolutions", 0) + 1
+            if got != ["//%s:prep" % pk]:
+                out["violations"].append({"key": "C20:relative-dependency-resolved-against-wrong-directory", "msg": "//%s:main (its COND file is %s) lists ':prep'; loaded deps %s, expected ['//%s:prep']" % (pk, "a symlink" if pk != "a" else "a regular file", got, pk), "witness": {"pkg": pk}})
     out["violations"] = out["violations"][:4]
     out["sample"] = {"output_paths_checked": out["reach"].get("c20_output_paths"), "example": sorted(seen)[:5]}
+    return out
+
+
+def char_sweep(_):
+    """every single character (all of ASCII, Latin-1, and a sample of other scripts / categories) placed
+    into each position class of names and identifiers"""
+    common.import_repo()
+    from conductor.task_identifier import TaskIdentifier
+    from conductor.errors import InvalidTaskIdentifier
+    out = {"sig": "char-sweep", "nontrivial": True, "reach": {}, "violations": [], "inconclusive": [], "sets": {}}
+    chars = [chr(c) for c in range(0, 0x250)] + list("\u0391\u03b1\u0416\u05d0\u0660\u0663\u0966\u4e2d\u3042\uff21\uff10\u2160\u00b2\u2070\u200b\u200d\ufeff\u202e\U0001d7ce\U0001f600")
+    templates = ["{c}", "x{c}", "{c}x", "x{c}y", "//a{c}:b", "//a:b{c}", "//{c}a:b", "//a/{c}:b", ":{c}", ":x{c}", "a{c}b:c", "//a:{c}b"]
+    n = 0
+    for c in chars:
+        for tpl in templates:
+            s = tpl.replace("{c}", c)
+            n += 1
+            if TaskIdentifier.is_name_valid(s) != ref_name(s):
+                out["violations"].append({"key": "C20:name-grammar-mismatch", "msg": "is_name_valid(%r) = %s (character U+%04X)" % (s, TaskIdentifier.is_name_valid(s), ord(c)), "witness": {"engine": "E5", "string": s}})
+            for rp in (True, False):
+                try:
+                    t = TaskIdentifier.from_str(s, require_prefix=rp)
+                except InvalidTaskIdentifier:
+                    t = None
+                except Exception as ex:
+                    t = None
+                    out["violations"].append({"key": "C20:identifier-parse-crash", "msg": "from_str(%r) raised %r" % (s, ex), "witness": {"engine": "E5", "string": s}})
+                if (t is None) != (ref_ident(s, rp) is None):
+                    out["violations"].append({"key": "C20:identifier-grammar-mismatch", "msg": "from_str(%r, require_prefix=%s) %s (character U+%04X)" % (s, rp, "accepted" if t is not None else "rejected", ord(c)), "witness": {"engine": "E5", "string": s}})
+            try:
+                tr = TaskIdentifier.from_relative_str(s, pathlib.Path("p"))
+            except InvalidTaskIdentifier:
+                tr = None
+            if (tr is None) != (ref_rel(s) is None):
+                out["violations"].append({"key": "C20:relative-identifier-grammar-mismatch", "msg": "from_relative_str(%r) %s (character U+%04X)" % (s, "accepted" if tr is not None else "rejected", ord(c)), "witness": {"engine": "E5", "string": s}})
+    out["reach"]["c20_char_sweep_strings"] = n
+    out["violations"] = out["violations"][:4]
+    out["sample"] = {"char_sweep": n}
     return out
 
 
@@ -336,6 +394,7 @@ def main(tier, n=None):
     rep.exhaustive = True
     res2 = common.parallel_map(injectivity_and_resolution, [0], timeout=300)
     rep.merge_pool(res2)
+    rep.merge_pool(common.parallel_map(char_sweep, [0], timeout=300))
     rng = common.rng_for("c20cli", common.base_seed())
     pool = ["//:a", ":a", "a:a", "//a:a", "//a/:a", "a/Z:a", "//a/Z/:a", "//a:Z", ":Z", "//:a\n", "//a:a\n", " //:a", "//:a ", "//a//Z:a", "/a:a", "///:a", "//a:a:a", "//a.b:a", "//:nope", "//nope:a", "a", "//", ":", "//:", "\u00e9:a", "//a:\u00e9"]
     extra = ["".join(rng.choice(ALPHABET) for _ in range(rng.randint(1, 7))) for _ in range(60 if tier == "quick" else 600)]
@@ -345,7 +404,7 @@ def main(tier, n=None):
     rep.evaluations = total + len(chunks) + 1
     # every enumerated string is distinct by construction; accepted parses are the non-trivial ones
     rep.distinct = set(range(rep.reach.get("c20_accepted_parses", 0)))
-    code = rep.finish(required_reach=["c20_strings", "c20_accepted_parses", "c20_output_paths", "c20_relative_dep_resolutions", "c20_cli_where", "c20_cli_names"])
+    code = rep.finish(required_reach=["c20_strings", "c20_accepted_parses", "c20_output_paths", "c20_relative_dep_resolutions", "c20_cli_where", "c20_cli_names", "c20_char_sweep_strings"])
     return code
 
 
